@@ -346,6 +346,36 @@ func linStress(r *runner, p map[string]string) string {
 	var panicked atomic.Value
 	stop := make(chan struct{})
 	var helpers sync.WaitGroup
+	// the last-sequence statistic the engine reports never goes backwards while clients write (C08: numbers only grow)
+	var seqRegress atomic.Value
+	helpers.Add(1)
+	go func() {
+		defer helpers.Done()
+		var hi uint64
+		for {
+			select {
+			case <-stop:
+				return
+			default:
+			}
+			var cur uint64
+			switch v := e.GetStats()["storage_last_sequence"].(type) {
+			case uint64:
+				cur = v
+			case int:
+				cur = uint64(v)
+			case int64:
+				cur = uint64(v)
+			}
+			if cur < hi && seqRegress.Load() == nil {
+				seqRegress.Store(fmt.Sprintf("last_sequence-went-backwards-%d-then-%d", hi, cur))
+			}
+			if cur > hi {
+				hi = cur
+			}
+			runtime.Gosched()
+		}
+	}()
 	if p["compact"] == "1" {
 		helpers.Add(1)
 		go func() {
@@ -497,6 +527,9 @@ func linStress(r *runner, p map[string]string) string {
 		}
 	}
 	bad, nrec := logCheck(dir, all)
+	if r := seqRegress.Load(); r != nil {
+		bad = append(bad, r.(string))
+	}
 	nsites := 0
 	y.sites.Range(func(_, _ any) bool { nsites++; return true })
 	tail := fmt.Sprintf("ops=%d writeErrs=%d logRecords=%d walFiles=%d flushes=%v sites=%d", len(all), nerr, nrec,
@@ -626,6 +659,31 @@ func linSeqRot(r *runner, p map[string]string) string {
 			e.FlushImMemTables()
 		}
 	}()
+	// the last-sequence statistic never goes backwards while clients write
+	var seqRegress atomic.Value
+	helpers.Add(1)
+	go func() {
+		defer helpers.Done()
+		var hi uint64
+		for !stop.Load() {
+			var cur uint64
+			switch v := e.GetStats()["storage_last_sequence"].(type) {
+			case uint64:
+				cur = v
+			case int:
+				cur = uint64(v)
+			case int64:
+				cur = uint64(v)
+			}
+			if cur < hi && seqRegress.Load() == nil {
+				seqRegress.Store(fmt.Sprintf("last_sequence-went-backwards-%d-then-%d", hi, cur))
+			}
+			if cur > hi {
+				hi = cur
+			}
+			runtime.Gosched()
+		}
+	}()
 	const maxOps = 1 << 20
 	acked := make([][]uint8, threads) // per thread and op index: 0 not issued, 1 put acked, 2 put failed
 	ackDel, errDel := make([][4]int, threads), make([][4]int, threads)
@@ -686,6 +744,9 @@ func linSeqRot(r *runner, p map[string]string) string {
 		if len(bad) < 6 {
 			bad = append(bad, fmt.Sprintf(format, a...))
 		}
+	}
+	if r := seqRegress.Load(); r != nil {
+		add("%s", r.(string))
 	}
 	seen := make([][]uint8, threads)
 	for t := range seen {
